@@ -95,6 +95,10 @@ func (w *WalletManager) constructTxIn(inputs []*TxIn, lockTime uint64) (*wire.Ms
 		switch {
 		case pks.IsStaking():
 			txIn.Sequence = pks.Maturity()
+		case pks.IsBinding() && block == nil:
+			// unconfirmed binding deposit: the lock it is under is not known before it is mined
+			logging.CPrint(logging.ERROR, "binding input not confirmed", logging.LogFormat{"txid": input.TxId, "vout": input.Vout})
+			return nil, nil, massutil.ZeroAmount(), ErrInvalidParameter
 		case pks.IsBinding() && forks.EnforceMASSIP0002WarmUp(block.Height):
 			txIn.Sequence = consensus.MASSIP0002BindingLockedPeriod
 		default:
